@@ -8,6 +8,7 @@ import Proofs.GraftOrder
 import Proofs.DepGraphClosure
 import Proofs.DepGraphEqv
 import Proofs.DepGraphDepsRec
+import Proofs.DepGraphDependsRec
 import Proofs.DepGraphTopoComplete
 /-!
 # C16 — the dependency graph mirrors a plain node/edge set under any edit history
@@ -25,7 +26,8 @@ graphs, every node once after all its dependencies, `cyclic` otherwise).
 `graft` refines its set-level counterpart (`graft_refines_spec`) and preserves the ordering constraints between
 the plain nodes (`graft_preserves_order`); transitive closure and reduction are proved on acyclic graphs (`closure_spec`, `reduction_spec`: same reachability,
 most / fewest edges).  `grafts_preserve_order` extends this to any sequence of grafts and `flatten_round_eq` shows that one round of the model's
-`flatten` is such a sequence.  Recursive `dependencies` is `dependencies_rec_reads` (partial correctness), `<=` is `le_reads`, `==` is `eq_reads`.
+`flatten` is such a sequence.  Recursive `dependencies` is `dependencies_rec_reads` (partial correctness), recursive `depends` is `depends_rec_reads`
+(total: it always answers, cycles included), `<=` is `le_reads`, `==` is `eq_reads`.
 Not proved: the recursion of `flatten(recurse=True)` over nested levels — in the executable model and tied to the code by the correspondence
 (`multi_history_refines` is therefore the `…_partial` form of the property's first sentence: histories whose grafts are
 taken one at a time through `graft_refines_spec`).  `c16_pinned_refuted` keeps the pinned `graft` (A19) refuted.
@@ -357,6 +359,16 @@ theorem dependencies_rec_reads {g : G} {s : Spec} (h : Refines g s) {x : Nat} (h
   have eE : g.Edge = s.E := by funext u w; exact propext (h.2.2 u w)
   intro y
   rw [dependenciesRec_spec h.1 ((h.2.1 x).2 hx) hl y, eE]
+
+/-- **`depends(x, y, recurse=True)` always answers, with the truth**: on every graph a history can build — cyclic ones
+included — the search returns, and returns `True` exactly when `x` depends on `y` directly or indirectly.  (The pinned
+loop had no `seen` set and never returned on a cycle that does not lead to `y`: defect A32; the totality half of this
+theorem is the termination argument of the repaired loop, `size + 1` waves.) -/
+theorem depends_rec_reads {g : G} {s : Spec} (h : Refines g s) {x y : Nat} (hx : s.N x) (hy : s.N y) :
+    ∃ b, g.dependsRec x y = .ok b ∧ (b = true ↔ Relation.TransGen s.E x y) := by
+  have eE : g.Edge = s.E := by funext u w; exact propext (h.2.2 u w)
+  obtain ⟨b, hb, hspec⟩ := dependsRec_spec h.1 ((h.2.1 x).2 hx) ((h.2.1 y).2 hy)
+  exact ⟨b, hb, by rw [hspec, eE]⟩
 
 /-- the mathematical graph after grafting the graph `t` in place of the node `x` of `s` -/
 def Spec.graft (s t : Spec) (x : Nat) : Spec :=
